@@ -109,3 +109,9 @@ def parents(node):
 
 def loc(unit, node):
     return f"{unit.relpath}:{getattr(node, 'lineno', '?')}"
+
+
+def reindent(text, col):
+    """indent every line but the first by `col` spaces (for multi-line replacements placed at column col)"""
+    lines = text.split("\n")
+    return "\n".join([lines[0]] + [(" " * col + l if l.strip() else l) for l in lines[1:]])
